@@ -103,7 +103,12 @@ class C10(InterpProp):
         if rnd.random() < 0.2:
             # the property statechart is bound as a ready-made interpreter, the form of sismic < 1.4
             payload['prop_instance'] = True
-        return Case(payload, {'charts': [sc, prop]}, model_ok=e1.supported and e2.supported)
+        self._shift = rnd.choice([0.2345678, 2 ** 53 + 1, 10 ** 15 + 7]) if rnd.random() < 0.1 else None
+        case = Case(payload, {'charts': [sc, prop]}, model_ok=e1.supported and e2.supported)
+        if self._shift is not None:
+            # clock values with many decimals, or integer ticks beyond 2**53: the property statechart sees the very value
+            gen.shift_times(case, self._shift)
+        return case
 
     def shrink_candidates(self, case):
         p = case.payload
